@@ -17,7 +17,7 @@ EXTENDS Naturals, Sequences, FiniteSets, TLC, Json, SequencesExt, IOUtils
 
 Key == {"k1", "k2", "km"}
 Ctx == {"c1", "c2"}        \* verifier contexts
-SCtx == Ctx \cup {"c0"}    \* signing contexts; c0 is the empty context
+SCtx == Ctx \cup {"c0", "c1s"}    \* signing contexts; c0 is the empty context, c1s is c1 followed by a space (a different context)
 Body == {"d1", "d2", "hd1"}   \* hd1: data whose bytes are the digest of d1 (digest-length data is still just data)
 GoodHT == {"sha256", "blake3"}
 HT == GoodHT \cup {"sha1", "unknown", "bad99"}
